@@ -7,7 +7,7 @@ KEYS['keepbalance_c06'] = {'pkg': 'services/keep-balance'}
 KEYS['keepstore_c06'] = {'pkg': 'services/keepstore'}
 
 CHECKS['C06'] = {
-    'ready': False,
+    'ready': True,
     'level': 'fault_enumeration',
     'level_text': 'parts 2 and 3 enumerate faults exhaustively per generated case (every cut byte of an index body x 4 transports x 3 '
                   'readers; every request of a sweep x 7-8 fault kinds); part 1 explores generated scan histories',
